@@ -26,6 +26,20 @@ pub struct Cfg {
     pub k: usize,
     pub distance_weighted: bool,
     pub cover_tree: bool,
+    /// round 3 (label tables): count the rows all of whose nearest neighbours carry one inner label
+    pub label_probe: bool,
+}
+
+/// Class of the label / target values, part of the site key of a wrong prediction: "" for small
+/// integers (the round-1 tables), otherwise a suffix naming what is special about the values.
+fn label_class(y: &[f64]) -> &'static str {
+    if y.iter().any(|v| v.fract() != 0.0) {
+        ":non-integer-labels"
+    } else if y.iter().any(|v| v.abs() >= 10000.0) {
+        ":large-labels"
+    } else {
+        ""
+    }
 }
 
 impl Cfg {
@@ -297,6 +311,19 @@ fn with_metric<T: Fl, D: Distance<Vec<T>, T>>(dist: D, data: &[Vec<f64>], y: &[f
                 for (r, q) in qs.iter().enumerate() {
                     let d: Vec<f64> = pts.iter().map(|p| dist.distance(q, p).f()).collect();
                     let v = judge_row(cfg.kind, &d, y, &classes, cfg, pred[r], if cfg.kind == Kind::Classifier { if T::NAME == "f32" { 1e-5 } else { 1e-12 } } else { tol });
+                    if cfg.label_probe && cfg.kind == Kind::Classifier {
+                        // every point at most as far as the k-th neighbour carries the same label, and
+                        // that label is neither the smallest nor the largest one: whatever valid
+                        // neighbour set is used, the only acceptable prediction is that inner label
+                        let mut s = d.clone();
+                        s.sort_by(|a, b| a.partial_cmp(b).unwrap());
+                        let dk = s[k - 1];
+                        let mut near = (0..n).filter(|&i| d[i] <= dk).map(|i| y[i]);
+                        let first = near.next().unwrap();
+                        if near.all(|l| l == first) && first > classes[0] && first < classes[classes.len() - 1] {
+                            mc::count("lbl_rows_all_neighbours_one_inner_label");
+                        }
+                    }
                     if v.many_sets {
                         mc::count("est_rows_with_several_valid_neighbour_sets");
                     }
@@ -308,12 +335,14 @@ fn with_metric<T: Fl, D: Distance<Vec<T>, T>>(dist: D, data: &[Vec<f64>], y: &[f
                     }
                     if !v.ok {
                         let clause = match cfg.kind {
+                            // "reported as an original label value": not even one of the labels of y
+                            Kind::Classifier if !classes.iter().any(|c| *c == pred[r]) => "not-an-original-label",
                             Kind::Classifier => "not-a-plurality-class",
                             Kind::Regressor => "not-the-weighted-mean",
                         };
                         let wname = if cfg.distance_weighted { "distance-weighted" } else { "uniform" };
                         mc::violation(
-                            format!("{}.predict:{}:{}:{}", comp, class, wname, clause),
+                            format!("{}.predict:{}:{}:{}{}", comp, class, wname, clause, label_class(y)),
                             format!("{}: query {:?} (distances {:?}) predicted {:?}, acceptable over all valid {}-nearest sets: {}", show(), queries[r], d, pred[r], k, v.expected),
                         );
                     }
